@@ -177,7 +177,7 @@ Proof.
   destruct (get root p) as [self|] eqn:Hs; [clear Hg | congruence].
   destruct (parent_loc p) as [pp|] eqn:Hpp.
   - pose proof (parent_loc_inv _ _ Hpp) as Ep. set (k := last p 0) in *.
-    unfold next_all, prev_all, later_siblings, earlier_siblings. rewrite Hpp. fold k.
+    unfold next_all, prev_all, later_siblings, earlier_siblings. rewrite Hs, Hpp. fold k.
     rewrite Ep in Hs |- *.
     destruct (sibling_base_own _ _ _ _ Hw Hz Hs) as (par & Hp & Hk & Hb).
     rewrite Hb, Hp. split; reflexivity.
